@@ -1,6 +1,7 @@
 """Which files, theorems and lanes decide which property."""
 import disp_checks
 import tpl_checks
+import field_checks
 
 CORE_A = ["Model/Base.v", "Model/Dispatch.v", "Model/Routing.v", "Model/DispLane.v", "Gen/DispatchSrc.v", "Gen/ConvSrc.v",
           "Proofs/DispatchProofs.v", "Proofs/RoutingProofs.v", "Proofs/SrcObligations.v"]
@@ -40,6 +41,10 @@ def _c09(v, b, tier):
     tpl_checks.check_c09(v, b.t1_summary, 80 * SIZES[tier], 5)
 
 
+def _c20(v, b, tier):
+    field_checks.check_c20(v, tier)
+
+
 def _c10(v, b, tier):
     tpl_checks.check_c10(v, b.t1_summary, 60 * SIZES[tier], 5)
 
@@ -57,6 +62,10 @@ RULE_DISP = ("sessions of public-API operations (register_*_hook on classes/NewT
 REGISTRY = {
     "C04": {"props_file": "Props/C04.v", "files": CORE_TPL + ["Props/C04.v"], "run": _c04, "rule": RULE_TPL, "t1_sections": ["gen"]},
     "C09": {"props_file": "Props/C09.v", "files": CORE_TPL + ["Proofs/UnstructProofs.v", "Props/C09.v"], "run": _c09, "rule": RULE_TPL, "t1_sections": ["gen"]},
+    "C20": {"props_file": "Props/C20.v", "files": ["Model/Base.v", "Model/FieldConv.v", "Props/C20.v"], "run": _c20, "t1_sections": [],
+            "rule": "exhaustive enumeration of the decision domain {converter?} x {prefer_attrib_converters} x {untyped, hook found, hook not found, hook found but "
+                    "fails lazily} x class shapes (position of the attribute, 0-3 other attributes, default or not) x {Converter, BaseConverter} x validation mode x strategy; "
+                    "every case is non-trivial; distinct = distinct configuration"},
     "C10": {"props_file": "Props/C10.v", "files": CORE_TPL + ["Props/C10.v"], "run": _c10, "rule": RULE_TPL, "t1_sections": ["gen"]},
     "C07": {"props_file": "Props/C07.v", "files": CORE_A + ["Props/C07.v"], "run": _c07, "rule": RULE_DISP},
     "C08": {"props_file": "Props/C08.v", "files": CORE_A + ["Props/C08.v"], "run": _c08, "rule": RULE_DISP},
